@@ -207,7 +207,7 @@ class Exec:
     def check(self, pc, extra=None, want_model=False):
         """returns ('sat'|'unsat'|'unknown', model|None)"""
         self.nq += 1; t = time.time()
-        if self.deadline and t > self.deadline: raise Unsupported('wall-clock budget exhausted')
+        if self.deadline and time.process_time() > self.deadline: raise Unsupported('CPU-time budget exhausted')      # CPU time: robust when several checks share the machine
         self.sync(pc)
         if extra is not None:
             self.solver.push(); self.solver.add(extra)
